@@ -181,6 +181,9 @@ func (s *Solver) CheckSat() string {
 	stop()
 	s.Time += time.Since(t0)
 	s.Queries++
+	if s.log != nil {
+		fmt.Fprintf(s.log, "; -> %s in %d ms\n", strings.TrimSpace(r), time.Since(t0).Milliseconds())
+	}
 	if err != nil {
 		s.Unknown++
 		return "unknown"
